@@ -4,7 +4,7 @@ from __future__ import annotations
 import time
 
 from .. import opcat_tensor as cat
-from ..harness import OpCase
+from ..harness import OpCase, gradof, set_grad
 from .. import runner
 
 PROP = "C05"
@@ -77,7 +77,7 @@ class Scenario:
                 exp = np.zeros((3, 2), dtype=object if env.sym else np.float64)
                 exp[...] = 0 * x[0, 0] if env.sym else 0.0
                 exp[1] = g
-                out.pair("gradient flows back through an iterated row", t._grad, exp)
+                out.pair("gradient flows back through an iterated row", gradof(t), exp)
             return out
         if n == "nested_iteration":
             pairs = [(a, b) for a in t for b in t]
